@@ -1189,6 +1189,10 @@ def run(ctx):
     import common
     import malformed as M
     big = ctx.tier == "thorough"
+    # every round of the check (the source sentinel may start further ones) works on objects of its own: the schedules below are defined
+    # relative to FRESH objects ("first call strict", "first call lenient"); objects left behind by an earlier round carry its call history
+    _DOCS.clear()
+    _HANGS[0] = 0
     # (0) table obligation
     check_sites(ctx)
     # (0') load-time problems are downgraded, never foreign
